@@ -56,7 +56,7 @@ def _coord(wide):
 
 @st.composite
 def atom_rec(draw):
-    over = draw(st.sampled_from([None, None, None, None, None, "serial", "res_seq", "coord"]))
+    over = draw(st.sampled_from([None, None, None, None, None, None, "serial", "res_seq", "coord", "chain"]))
     serial = st.one_of(st.integers(1, 99999), st.sampled_from([9999, 10000, 99999]))
     if over == "serial":
         serial = st.one_of(st.integers(100000, 5_000_000), st.sampled_from([100000, 1234567]))
@@ -68,7 +68,8 @@ def atom_rec(draw):
         type=draw(st.sampled_from(["ATOM", "ATOM", "HETATM"])),
         serial=draw(serial),
         name=draw(_name()), res_name=draw(_resn()),
-        chain=draw(st.sampled_from(["A", "B", "Z", "a", "x", "", "", "1", "9"])),
+        chain=draw(st.sampled_from(["AA", "AB", "B12", "Ax"])) if over == "chain" else
+        draw(st.sampled_from(["A", "B", "Z", "a", "x", "", "", "1", "9"])),  # mmCIF author chain ids may be longer
         res_seq=draw(res_seq),
         ins_code=draw(st.sampled_from(["", "", "", "A", "B", "Z"])),
         x=draw(_coord(over == "coord")), y=draw(_coord(over == "coord")), z=draw(_coord(over == "coord")),
@@ -94,6 +95,8 @@ def _fits(rec):
         if len(f"{rec[k]:.3f}") > 8:
             out.append("coordinate")
             break
+    if len(rec["chain"]) > 1:
+        out.append("chain_id")
     return out
 
 
@@ -126,6 +129,8 @@ def _compare(res, rec, got, tag, keep_chain, overflow, check_chain=True):
     """Compare one read-back record with the model; overflow fields -> known signatures."""
 
     def bad(field, what):
+        if field == "chain" and "chain_id" in overflow:
+            field = "chain_id"
         if field in overflow or (field in "xyz" and "coordinate" in overflow):
             f = "coordinate" if field in "xyz" else field
             res.bad(f"C08:overflow:{f}", f"{tag}: {what} (value does not fit its PDB column)")
@@ -221,7 +226,7 @@ def run_case(draw):
 
     mode = draw(st.sampled_from([["--clean"], [], [], ["--noopt"], ["--nodebump", "--noopt"], ["--assign-only"]]))
     hyd = "all" if mode == ["--assign-only"] else None
-    desc = draw(e2e.structure(max_chains=3, nmax=4, contact=False, hyd=hyd, variants=0.15))
+    desc = draw(e2e.structure(max_chains=3, nmax=4, contact=False, hyd=hyd, variants=0.15, cif=True))
     # insertion codes / numbering at the column boundaries
     for ch in desc["chains"]:
         n = len(ch["seq"])
@@ -231,6 +236,8 @@ def run_case(draw):
     for o in ("--whitespace", "--keep-chain"):
         if draw(st.booleans()):
             opts.append(o)
+    if mode != ["--clean"] and draw(st.integers(0, 2)) == 0:
+        opts.append("--ffout=" + draw(st.sampled_from(strat.FFS)))  # output naming scheme (CHARMM: residue TER ...)
     return dict(part="run", desc=desc, ff=draw(st.sampled_from(strat.FFS)), opts=opts,
                 big=draw(st.sampled_from([None, None, [-150.0, 1200.0, -250.0]])))  # fmt: skip
 
@@ -247,7 +254,8 @@ def check_run(case):
     s, r = e2e.run_case(desc, ff, opts)
     ws, keep = "--whitespace" in opts, "--keep-chain" in opts
     res.label("ws" if ws else "fixed", "keep-chain" if keep else "no-chain", "clean" if "--clean" in opts else "ff-run",
-              "big-coords" if case.get("big") else "small-coords")  # fmt: skip
+              "big-coords" if case.get("big") else "small-coords", "mmcif-input" if desc.get("cif") else "pdb-input",
+              *[o for o in opts if o.startswith("--ffout")])  # fmt: skip
     if not r.ok:
         res.label("run-failed", "fail:" + r.exc_text[:40])
         return res
@@ -255,6 +263,8 @@ def check_run(case):
     for sig, msg in A.problems:
         if sig.startswith("C08"):
             res.bad(sig, msg)
+        elif sig == "C03:partition":
+            res.bad("C08:run:line-count", "atoms of the computed model are not all in the file: " + msg)
     if A.pairs is None:
         res.label("unpaired")
         return res
@@ -268,6 +278,10 @@ def check_run(case):
             ("ins_code", ln.get("icode", ""), a.ins_code or ""),
         ]  # fmt: skip
         for field, got, want in checks:
+            if got != want and field == "chain" and len(want) > 1:
+                # multi-character (mmCIF) chain id: does not fit the one-character chain column
+                res.bad("C08:overflow:chain_id", f"{tag}: chain in the file {got!r}, in the model {want!r}")
+                break
             if got != want:
                 res.bad(f"C08:run:{tag}:{field}", f"{field} in the file {got!r}, in the model {want!r} (atom {a.name} of {a.residue})")
                 break
@@ -293,7 +307,8 @@ def check_run(case):
             else:
                 for o, (ln, a) in zip(own, A.pairs):
                     if (o.name, o.res_name, o.res_seq, o.ins_code or "") != (a.name, a.res_name, a.res_seq, a.ins_code or "") or \
-                            abs(o.x - a.x) > 5.1e-4 or abs(o.charge - (a.ffcharge or 0.0)) > 5.1e-5 or (keep and (o.chain_id or "") != (a.chain_id or "")):
+                            abs(o.x - a.x) > 5.1e-4 or abs(o.charge - (a.ffcharge or 0.0)) > 5.1e-5 or \
+                            (keep and len(a.chain_id or "") <= 1 and (o.chain_id or "") != (a.chain_id or "")):
                         res.bad("C08:run:own-reader:fields", f"io.read_pqr gives {(o.name, o.res_name, o.chain_id, o.res_seq, o.ins_code)} for "
                                 f"{(a.name, a.res_name, a.chain_id, a.res_seq, a.ins_code)}")  # fmt: skip
                         break
